@@ -50,12 +50,21 @@ def run(ctx: RuleContext):
 
     ctx.sub(check_eval_discipline, ctx, "C13.6")
     ctx.sub(check_bindings_listed_separately, ctx)
+    # C13.9: the parameter that is blamed is found with checkers built from *this* function's signature, not taken
+    # from a table keyed by a rendering of it that another function can share
+    from ._memo import check_no_lossy_memo
+
+    ctx.sub(check_no_lossy_memo, ctx, "C13.9", r, cg, what="the blamed parameter / the message")
     # C13.7: the '?' leaf label never outlives the leaf check that set it (also when that check raises):
     # a stale label makes a later misuse of '?' pass silently or be reported with bindings of a leaf
     # that is not being checked (flag typestate of C16.1, label flag only)
     from ._flags import run_flag_typestate
 
     ctx.reuse("C13.7", run_flag_typestate, ctx, "C13.7", only_attr_of=lambda fl: bool(fl.guarded_setters or fl.raising_getters), cg=cg)
+    # ... and the flatten-mode flag never outlives the flatten that set it: while it is set every array check
+    # answers "fine" without looking at dtype or shape, so a leaked flag turns every later violated annotation
+    # of the thread into an accepted call (flag typestate of C08.7)
+    ctx.reuse("C13.7", run_flag_typestate, ctx, "C13.7", only_attr_of=lambda fl: not fl.guarded_setters and not fl.raising_getters, cg=cg)
 
 
 # ------------------------------------------------------------------------ C13.1
